@@ -130,5 +130,8 @@ def main(tier, seed, only=None):
 
 
 def replay(rp):
+    if rp.get('harness') == 'l1':
+        from harness import l1
+        return l1.replay(rp)
     from harness import l2run
     return l2run.replay('C06', rp, configs('thorough') + configs('quick'))
